@@ -31,6 +31,16 @@ def spec_encode(words, ent):
     return [words[(v >> (11 * (n - 1 - i))) & 2047] for i in range(n)]
 
 
+def gen_encode(words, ent):
+    """the BIP-39 construction applied to an entropy of ANY multiple of 4 bytes (ENT/32 checksum bits): for lengths outside
+    16..32 bytes the result has an illegal word count (3, 6, 9, 27, 30, …) although its bits are self-consistent."""
+    cs = len(ent) // 4
+    h = int.from_bytes(hashlib.sha256(ent).digest(), "big") >> (256 - cs) if cs else 0
+    v = (int.from_bytes(ent, "big") << cs) | h
+    n = (len(ent) * 8 + cs) // 11
+    return [words[(v >> (11 * (n - 1 - i))) & 2047] for i in range(n)]
+
+
 def dec_case(lang, sentence, cls, mode="plain"):
     return Case("bip39dec", [lang, mode, tx(sentence), oracle_for(sentence)], cls)
 
@@ -130,6 +140,12 @@ def gen(rng, tier):
         v = i % 4
         ws2 = [z] * k + ws if v == 0 else ws + [z] * k if v == 1 else ws[:1] + [z] * k + ws[1:] if v == 2 else [z] * k + ws[:-k]
         yield dec_case(rng.choice([lang, "auto"]), " ".join(ws2), "neg-zero-words" if v != 3 else "neg-invalid")
+    # self-consistent sentences of an illegal length: word counts that are multiples of 3 outside 12..24
+    for i in range(27 if tier == "quick" else 300):
+        lang = BIP39_LANGS[i % 9]
+        nbytes = [4, 8, 12, 36, 40, 44, 48, 64][i % 8]
+        ws = gen_encode(lists[lang], bytes(rng.randrange(256) for _ in range(nbytes)))
+        yield dec_case(rng.choice([lang, "auto"]), " ".join(ws), "neg-count-mult3")
     # known ambiguity witness (F-autodetect): French sentence made of words that are also English
     s = " ".join(spec_encode(lists["FRENCH"], bytes.fromhex(F_AUTODETECT)))
     yield dec_case("FRENCH", s, "dec-lang")
@@ -172,6 +188,25 @@ def relations(rng, tier, rpt):
                     rep("Decode(auto)(Encode(e)) != e", "%s %s" % (lang, e.hex()), a, e.hex())
                 if not Bip39MnemonicValidator().IsValid(m):
                     rep("IsValid false on an encoder output", "%s %s" % (lang, e.hex()), "False", "True")
+    # one decoder / validator object in auto-detect mode reused for sentences of different languages: same answers as fresh objects
+    from bip_utils import Bip39MnemonicValidator as _Val
+    shared_d, shared_v = Bip39MnemonicDecoder(), _Val()
+    order = list(Bip39Languages) + list(Bip39Languages)[::-1]
+    for lang in order:
+        e = bytes(rng.randrange(256) for _ in range(rng.choice(SIZES)))
+        sent = " ".join(spec_encode(words_of(lang.name), e))
+        n += 1
+        for what, f in (("Bip39MnemonicDecoder().Decode", lambda: shared_d.Decode(sent).hex()), 
+                        ("Bip39MnemonicValidator().IsValid", lambda: str(shared_v.IsValid(sent)))):
+            try:
+                got = f()
+            except Exception as ex:  # noqa
+                got = type(ex).__name__
+            want = "True" if "IsValid" in what else e.hex()
+            if "Decode" in what and got == want and shared_d.DecodeWithChecksum(sent) != Bip39MnemonicDecoder().DecodeWithChecksum(sent):
+                got = "DecodeWithChecksum differs"
+            if got != want:
+                rep("%s on an object reused across languages departs from a fresh object (valid %s sentence)" % (what, lang.name), sent, got, want)
     # the listed ambiguity witness
     e = bytes.fromhex(F_AUTODETECT)
     m = Bip39MnemonicEncoder(Bip39Languages.FRENCH).Encode(e).ToStr()
